@@ -51,11 +51,14 @@ def wall_probes(model, rng):
             pts.append(('middle', lo + width // 2))
         kind = 'gap' if new > old else ('fold' if new < old else 'same')
         for lab, w in pts:
-            out.append((i, kind + ':' + lab, w, width))
+            out.append((i, kind + ':' + lab, w, width, 0))
+            if lab in ('start-1', 'start', 'end-1', 'end'):
+                # half a second later: same side of every (whole-second) boundary as the second it belongs to
+                out.append((i, kind + ':' + lab + '+.5', w, width, 500000))
     if not tr:
         for w in (TM.to_ts(D.datetime(1960, 6, 1, 12)), TM.to_ts(D.datetime(2020, 2, 29, 23, 59, 59))):
-            out.append((-1, 'none', w, 0))
-    return [(i, lab, w, width) for i, lab, w, width in out if LOW < w < HIW]
+            out.append((-1, 'none', w, 0, 0))
+    return [p for p in out if LOW < p[2] < HIW]
 
 
 def k5_applies(model, wall, width):
@@ -71,12 +74,12 @@ def check_zone(ctx, tz, label, kind, z, model, rng):
     UTC = tz.UTC
     nbad = 0
     wall_claimed = getattr(model, 'wall_claimed', lambda w: True)
-    for i, lab, w, width in wall_probes(model, rng):
+    for i, lab, w, width, us in wall_probes(model, rng):
         if not wall_claimed(w):
             ctx.count('unclaimed_wall_times')
             continue
         pre = model.preimages(w)
-        wall = TM.to_dt(w)
+        wall = TM.to_dt(w).replace(microsecond=us)
         case = {'zone': label, 'kind': kind, 'wall': wall.isoformat(), 'transition': i, 'position': lab, 'preimages': pre}
         if getattr(model, 'data', None) is not None:
             case['tzif_hex'] = model.data.hex()
@@ -111,16 +114,18 @@ def check_zone(ctx, tz, label, kind, z, model, rng):
             if o0 != e0 or o1 != e1:
                 bad.append('fold=0/1 give offsets %s/%s, the earlier/later instants need %s/%s' % (o0, o1, e0, e1))
             for k, u in enumerate(pre):
-                l = (TM.EPOCH + D.timedelta(seconds=u)).replace(tzinfo=UTC).astimezone(z)
+                l = (TM.EPOCH + D.timedelta(seconds=u, microseconds=us)).replace(tzinfo=UTC).astimezone(z)
                 if l.replace(tzinfo=None) != wall or l.fold != k:
                     bad.append('UTC %d converts to %s fold=%d, expected this wall time with fold=%d' % (u, l.replace(tzinfo=None).isoformat(), l.fold, k))
         elif len(pre) == 1:
             e = D.timedelta(seconds=w - pre[0])
             if o0 != e or o1 != e:
                 bad.append('single instant but fold=0/1 give %s/%s (offset in force %s)' % (o0, o1, e))
-            l = (TM.EPOCH + D.timedelta(seconds=pre[0])).replace(tzinfo=UTC).astimezone(z)
+            l = (TM.EPOCH + D.timedelta(seconds=pre[0], microseconds=us)).replace(tzinfo=UTC).astimezone(z)
             if l.fold != 0:
                 bad.append('unambiguous time converted from UTC with fold=1')
+            if l.replace(tzinfo=None) != wall:
+                bad.append('its UTC instant converts to %s' % l.replace(tzinfo=None).isoformat())
         # resolve_imaginary
         aware = wall.replace(tzinfo=z)
         try:
@@ -146,6 +151,8 @@ def check_zone(ctx, tz, label, kind, z, model, rng):
             nbad += 1
             if nbad <= 3:
                 ctx.violation('classification', case, '; '.join(bad))
+        if us:
+            ctx.count('sub_second_probes' + ('_before_1970' if w < 0 else ''))
         if not lab.endswith(('far', 'before', 'after')):
             ctx.distinct('%s|%d|%s' % (label, i, lab))
             ctx.count('class_%d_preimages' % len(pre))
@@ -188,7 +195,8 @@ def floors(agg, tier):
     for k, n in (('zones_fixed', 8), ('zones_tzfile', 30 if tier == 'quick' else 300), ('zones_tzfile-synthetic', 15), ('zones_tzstr', 20),
                  ('zones_tzrange', 20), ('zones_tzical', 8), ('zones_tzlocal', 20), ('class_0_preimages', 2000), ('class_2_preimages', 2000),
                  ('class_1_preimages', 2000), ('width_gap-1h', 500), ('width_fold-1h', 500), ('width_gap-30m', 10), ('width_gap-2h', 10),
-                 ('width_gap-24h+', 2), ('width_fold-24h+', 2), ('width_gap-odd', 20), ('width_fold-odd', 20)):
+                 ('width_gap-24h+', 2), ('width_fold-24h+', 2), ('width_gap-odd', 20), ('width_fold-odd', 20), ('sub_second_probes', 5000),
+                 ('sub_second_probes_before_1970', 1000)):
         if c.get(k, 0) < n:
             out.append('%s only %d (< %d)' % (k, c.get(k, 0), n))
     if agg['evaluations'] < (60000 if tier == 'quick' else 500000):
